@@ -400,6 +400,13 @@ class Monitors:
     def on_graph(self, cols, frame, args, out):
         self.graph_calls += 1
         trip = list(out.triplet_scores)
+        if 'C07' in self.oracles:
+            cap = self.cli.get('combination_number_upper_bound', 2 ** 15)
+            if '3mr' in self.heuristic:
+                cap = min(cap, 10 ** 4)
+            evaluated = len(trip) if args.heuristic == 'Constant' else len(trip) // 2
+            if evaluated > cap:
+                self.violate('C07', 'more-than-cap-evaluated', {'evaluated': evaluated, 'cap': cap, 'heuristic': args.heuristic})
         heuristic = args.heuristic
         label = args.label_column
         if 'C06' in self.oracles:
